@@ -36,6 +36,15 @@ def run(tier):
     cov, covstats = stream.cover_histories(pairs=(tier == "thorough"))
     covcc, covccstats = stream.cover_histories(pairs=(tier == "thorough"), cfg="Cover_Stream_cc")
     cov = cov + covcc
+    # submodule sections (Submodule log lines, Subproject commit pairs) next to ordinary sections
+    msub = tlc.run_tlc("MC_Stream", cfg="MC_Stream_sub", workers=8, coverage=False, heap="8g", timeout=1800)
+    tlc.require_ok(msub, "MC_Stream_sub")
+    cex += [v for t, v in msub.printed if t == "CEX"][:3]
+    reg19 = tlc.run_tlc("MC_Stream", cfg="MC_Stream_noD19", workers=4, coverage=False, timeout=600)
+    if not reg19.violated:
+        raise core.ToolError("regression config MC_Stream_noD19 was not rejected: design-level check is vacuous")
+    covsub, covsubstats = stream.cover_histories(pairs=(tier == "thorough"), cfg="Cover_Stream_sub")
+    cov = cov + covsub
     for cfg in ("bare", "titled"):      # plain diff -u / diff -ru sources
         cdu, _ = stream.cover_histories(pairs=(tier == "thorough"), cfg=f"Cover_DiffU_{cfg}", module="Cover_DiffU")
         cov = cov + cdu
@@ -69,8 +78,9 @@ def run(tier):
         "distinct_nontrivial": len({json.dumps(x[1], sort_keys=True) + x[0].name for x in res}),
         "rule": "Env_Git histories (all up to ReplayLen, plus transition cover of the abstract state graph) x path skins "
                 f"{sorted(SKINS)}; distinct = distinct (history, skin)",
-        "transition_cover": covstats, "drift": len(V.drift), "known_findings_hit": len(V.known_hit),
-        "regression_model_rejected": reg.violated,
+        "transition_cover": covstats, "transition_cover_submodule": covsubstats, "states_submodule_model": msub.distinct,
+        "drift": len(V.drift), "known_findings_hit": len(V.known_hit),
+        "regression_model_rejected": reg.violated and reg19.violated,
         "samples": [{"history": stream.shape(x[1])[:300], "config": x[0].name,
                      "stdin": x[2].decode("utf-8", "replace")[:600]} for x in rnd.sample(res, min(3, len(res)))],
         "exhaustive": True,
